@@ -2,7 +2,7 @@
    The per-protocol instances C01_<p> are generated and re-proved on every run from the regenerated models. *)
 From Coq Require Import ZArith List Bool.
 Require Import PyIR.Base.Result PyIR.IW.IW PyIR.IW.IWProps PyIR.Engine.Match PyIR.Engine.Render PyIR.Engine.Parse
-               PyIR.Engine.ParseProps PyIR.Engine.RoundTripH PyIR.Engine.ParseM PyIR.Engine.RoundTripM PyIR.Proto.Descriptor PyIR.Proto.Model PyIR.Proto.RoundTrip PyIR.Proto.C01.
+               PyIR.Engine.ParseProps PyIR.Engine.RoundTripH PyIR.Engine.ParseM PyIR.Engine.RoundTripM PyIR.Proto.Descriptor PyIR.Proto.Model PyIR.Proto.RoundTrip PyIR.Proto.C01 PyIR.Proto.Exhaustive.
 Import ListNotations.
 Open Scope Z_scope.
 
@@ -65,7 +65,14 @@ Theorem C01_protocol_roundtrip : forall D tol xs,
      exists t, as_pairs (d_bursts D) = Some t /\ base_decode D t tol ds = Ok xs).
 Proof. exact c01_generic. Qed.
 
+(* the principle behind the C01X_<p> instances (small parameter spaces): a boolean round-trip check that evaluates to true on every
+   assignment of the ranges holds for every in-range assignment *)
+Theorem C01_exhaustion_principle : forall (P : list Z -> bool) rs, forallb P (all_assignments rs) = true ->
+  forall args, Forall2 (fun a r => fst r <= a <= snd r) args rs -> P args = true.
+Proof. exact exhaustive_sound. Qed.
+
 Print Assumptions C01_engine_fixed_gap.
+Print Assumptions C01_exhaustion_principle.
 Print Assumptions C01_engine_manchester_fixed_gap.
 Print Assumptions C01_engine_manchester_period.
 Print Assumptions C01_protocol_roundtrip.
